@@ -280,6 +280,90 @@ pub fn cmd_feed(args: &[String]) {
     println!("{{\"inputs\":{},\"events\":{}}}", inputs.len(), total);
 }
 
+// ---------------------------------------------------------------- call (long inputs)
+fn long_inputs(rng: &mut StdRng, thorough: bool) -> Vec<(u8, u8, usize, Vec<u8>)> {
+    let mut v: Vec<(u8, u8, usize, Vec<u8>)> = Vec::new();
+    let sizes: &[usize] = if thorough { &[4096, 16384, 66000, 70000] } else { &[4096, 66000] };
+    for &sz in sizes {
+        // long request target (past 64 KiB), long header value, long header name, long reason
+        let mut b = b"GET /".to_vec();
+        while b.len() + 40 < sz { b.push(b'a' + (b.len() % 26) as u8); }
+        b.extend_from_slice(b" HTTP/1.1\r\nHost: x\r\n\r\nbody");
+        v.push((K_REQ, 0, 4, b));
+        let mut b = b"HTTP/1.1 200 ".to_vec();
+        while b.len() + 40 < sz { b.push(b'r'); }
+        b.extend_from_slice(b"\r\nA: b\r\n\r\n");
+        v.push((K_RESP, 0, 4, b));
+        let mut b = b"POST /x HTTP/1.0\nLong-Value: ".to_vec();
+        while b.len() + 40 < sz { b.push(if b.len() % 97 == 0 { b'\t' } else { b'v' }); }
+        b.extend_from_slice(b"  \r\nLast: 1\n\n");
+        v.push((K_REQ, 49, 8, b));
+        let mut b = b"HTTP/1.0 404 Not Found\r\n".to_vec();
+        while b.len() + 40 < sz { b.push(b'N'); }
+        b.extend_from_slice(b": v\r\n\r\n");
+        v.push((K_RESP, 94, 8, b));
+        // a folded value spanning the whole input
+        let mut b = b"HTTP/1.1 200 OK\r\nF: start\r\n".to_vec();
+        while b.len() + 40 < sz { b.extend_from_slice(b"\t continued line \r\n"); }
+        b.extend_from_slice(b"E: end\r\n\r\n");
+        v.push((K_RESP, 8, 8, b));
+        // chunk size with a long extension
+        let mut b = b"1A2b;ext=".to_vec();
+        while b.len() + 8 < sz { b.push(b'e'); }
+        b.extend_from_slice(b"\r\n");
+        v.push((K_CHUNK, 0, 0, b));
+    }
+    // many headers: more than 255, more than the array holds, exactly as many as it holds
+    for (n, cap) in [(300usize, 400usize), (300, 300), (300, 299), (70, 64), (257, 256)] {
+        let mut b = b"GET / HTTP/1.1\r\n".to_vec();
+        for i in 0..n {
+            b.extend_from_slice(format!("H{}: v{}\r\n", i, i % 7).as_bytes());
+        }
+        b.extend_from_slice(b"\r\n");
+        v.push((K_REQ, 0, cap, b.clone()));
+        let mut h = b[16..].to_vec();
+        if rng.gen_bool(0.5) { h.extend_from_slice(b"tail"); }
+        v.push((K_HDRS, 0, cap, h));
+    }
+    // random long messages
+    for _ in 0..(if thorough { 60 } else { 12 }) {
+        let kind = if rng.gen_bool(0.5) { K_REQ } else { K_RESP };
+        let m = random_message(rng, kind, 60);
+        let cfg = if rng.gen_bool(0.5) { 0 } else { rng.gen_range(0..128u8) & relevant_mask(kind) };
+        v.push((kind, cfg, 80, m));
+    }
+    v
+}
+
+pub fn cmd_call(args: &[String]) {
+    let out = arg(args, "--out").unwrap();
+    let seed: u64 = arg(args, "--seed").and_then(|s| s.parse().ok()).unwrap_or(0);
+    let shards: usize = arg(args, "--shards").and_then(|s| s.parse().ok()).unwrap_or(1);
+    let thorough = args.iter().any(|a| a == "--thorough");
+    let mut rng = StdRng::seed_from_u64(seed ^ 0xca11);
+    let inputs = long_inputs(&mut rng, thorough);
+    let arena = Arena::new(1 << 20);
+    let mut ws: Vec<BufWriter<std::fs::File>> = (0..shards).map(|i| BufWriter::new(std::fs::File::create(format!("{}.{}", out, i)).unwrap())).collect();
+    let mut bytes_total = 0usize;
+    // biggest inputs first, round-robin, so that shards are balanced
+    let mut order: Vec<usize> = (0..inputs.len()).collect();
+    order.sort_by_key(|i| std::cmp::Reverse(inputs[*i].3.len()));
+    for (k, &i) in order.iter().enumerate() {
+        let (kind, cfg, cap, data) = &inputs[i];
+        let w = &mut ws[k % shards];
+        let buf = arena.place(data, Place::End);
+        let real_cap = (*cap).min(MAX_SLOTS - 4);
+        let o = run(entry_of(*kind), *cfg, buf, real_cap);
+        writeln!(w, "{{\"ev\":\"begin\",\"kind\":{},\"cfg\":{},\"cap\":{},\"len\":{}}}", kind, cfg, real_cap, data.len()).unwrap();
+        for ch in data.chunks(256) {
+            writeln!(w, "{{\"ev\":\"bytes\",\"b\":[{}]}}", ch.iter().map(|x| x.to_string()).collect::<Vec<_>>().join(",")).unwrap();
+        }
+        writeln!(w, "{{\"ev\":\"end\",{}}}", obs_json(&o, buf, *kind)).unwrap();
+        bytes_total += data.len();
+    }
+    println!("{{\"calls\":{},\"bytes\":{}}}", inputs.len(), bytes_total);
+}
+
 // ---------------------------------------------------------------- session
 fn short_message(rng: &mut StdRng, kind: u8) -> Vec<u8> {
     let mut b: Vec<u8> = Vec::new();
